@@ -139,6 +139,22 @@ def run(ctx):
                 if r >= need + 0 and r >= 2:
                     ctx.check(np.abs(F.dense(Y2) - v2).max() <= 1e-7 * (1 + np.abs(v2).max()), 'anova:order2',
                               'order-2 tensor (r=%d >= needed %d) differs from f0 + sum f1 + sum f2 by %.2e' % (r, need, np.abs(F.dense(Y2) - v2).max()), case=case)
+    # ---- shape / rank clauses in higher dimensions (the number of pair terms grows as d (d - 1) / 2: 6, 10, 15, 21, 28)
+    for t in range(10 if quick else 60):
+        d = 4 + t % 5
+        n = [int(x) for x in rng.integers(2, 4, size=d)]
+        m_ = 40 + 10 * d
+        I = np.stack([rng.integers(0, k, size=m_) for k in n], axis=1)
+        I = np.vstack([I, np.array([[j % k for k in n] for j in range(max(n))])])          # every index value observed
+        y = rng.normal(size=len(I))
+        for order_ in (1, 2):
+            for r in (2, 3):
+                Yh = teneva.anova(I, y, r=r, order=order_, noise=1e-10, seed=t)
+                ctx.case(key=('ranks-high-d', d, order_, r, t, ctx.seed), nontrivial=True)
+                okh = F.is_wellformed(Yh, n)
+                rk = [G.shape[2] for G in Yh[:-1]] if okh else None
+                okh = okh and (all(x == r for x in rk) if order_ == 1 else max(rk) <= r)
+                ctx.check(okh, 'anova:ranks%d' % order_, 'order-%d ANOVA in dimension %d (mode sizes %s): TT-ranks %s for requested rank %d' % (order_, d, n, rk, r))
     # ---- additive function on a full grid is reproduced exactly
     for t in range(10 if quick else 60):
         d = int(rng.integers(2, 5))
